@@ -152,7 +152,8 @@ inline void topologyChecks(vh::Ctx& c, const BuiltMesh& b) {
     double worst = -Infinity, far = 0;
     for (auto& p : m.v) { worst = std::max(worst, (p - ctr).norm() - rad); far = std::max(far, (p - m.center).norm()); }
     c.check("contains:mesh-bounding-sphere", worst, 1e-12 * (m.scale + ctr.norm()), W("a vertex is outside getBoundingSphere"));
-    c.require("tight:mesh-bounding-sphere", rad <= far * (1 + 1e-6) + 1e-9 * (1 + ctr.norm()), [&]() { return W("bounding sphere larger than the sphere about the vertex centroid")().set("radius", rad).set("centroid_sphere_radius", far).set("center", jv(ctr)).set("centroid", jv(m.center)); });
+    // only "not absurdly large" is judged (the statement claims containment, not minimality); the ratio is reported as a margin
+    c.check("tight:mesh-bounding-sphere", rad / (far + 1e-300) - 1, 1.0, [&]() { return W("bounding sphere larger than the sphere about the vertex centroid")().set("radius", rad).set("centroid_sphere_radius", far).set("center", jv(ctr)).set("centroid", jv(m.center)); });
     // createPolygonalMesh round trip
     PolygonalMesh pm = tm.createPolygonalMesh();
     bool same = pm.getNumVertices() == nv && pm.getNumFaces() == nf;
@@ -250,7 +251,7 @@ inline void meshQueryChecks(vh::Ctx& c, const BuiltMesh& b, vh::Rng& r, int nNea
             BfInside bi = bfInside(m, V3(x), r);
             LD wn = windingNumber(m, V3(x));
             bool wnIn = wn > 0.5L, wnClear = std::fabs(wn - (wnIn ? 1 : 0)) < 1e-6L;
-            if (bi.ok && wnClear && wnIn == bi.inside) c.require(std::string("inside:mesh-nearest:") + QC[qc], inA == bi.inside, [&]() { return W().set("parity_inside", bi.inside).set("winding_number", (double)wn).set("flag", inA); });
+            if (bi.ok && wnClear && wnIn == bi.inside) c.require(std::string("inside:mesh-nearest:") + triFeature(bf.p, m.vert(bf.face, 0), m.vert(bf.face, 1), m.vert(bf.face, 2)), inA == bi.inside, [&]() { return W().set("parity_inside", bi.inside).set("winding_number", (double)wn).set("flag", inA); });
             else c.skip("inside-oracles-not-clean");
         }
         // findNearestPointToFace: the per-face service used by the tree
